@@ -589,6 +589,12 @@ def cleanup_names(ctx, repo, msg, grp):
             if kind == "loop":
                 sel = False
                 for p_ in it_.loop_body(node, {key_name(node.target, node.iter): w}):
+                    # (the name is either collected for a later removal pass or removed from the name map right away)
+                    if any(e[0] == "ecall" and isinstance(e[1], tuple) and e[1][0] == "call" and isinstance(e[1][1], tuple) and e[1][1][0] == "attr"
+                           and e[1][1][2] == "pop" and _sy.show(e[1][1][1]).endswith("__dict__") and e[1][2][:1] == (w,) for e in p_.effects) or \
+                            any(e[0] == "del" and isinstance(e[1], tuple) and e[1][0] == "sub" and _sy.show(e[1][1]).endswith("__dict__") and e[1][2] == w
+                                for e in p_.effects):
+                        sel = True
                     if any(e[0] == "ecall" and isinstance(e[1], tuple) and e[1][0] == "call" and isinstance(e[1][1], tuple) and e[1][1][0] == "attr"
                            and e[1][1][2] in ("append", "add") and len(e[1][2]) == 1 and (
                                e[1][2][0] == w or (isinstance(e[1][2][0], tuple) and e[1][2][0] and e[1][2][0][0] == "tuple"
